@@ -36,6 +36,10 @@ CONSTANTS Users, Paths, Dirs,   \* sets of strings; Dirs \subseteq {"0", "1"}
           OldVersions,          \* BOOLEAN: a cache file written by an older release may pre-exist
           StartRecipes,         \* names of the life stories Init may give a transfer (see Recipe)
           MutOps,               \* the state methods Mutate may call (a subset of MOps)
+          SetVals,              \* the data values SetData may install (a subset of DataVals)
+          PeerFaults,           \* BOOLEAN: initially the queue requests to the peers we download from may be
+                                \*          undeliverable (peer unreachable)
+          PeerToggles,          \* BOOLEAN: peers become (un)reachable during a history
           MaxInit,              \* at most this many transfers already there in the initial state
           MaxPresent,           \* at most this many transfers in the manager at once (Add)
           MaxOps,               \* length bound of a history
@@ -92,8 +96,12 @@ Effect(r, o) ==
        [] OTHER -> [r EXCEPT !.st = new]
 
 \* the manager's transfer code sets local path / file size / byte count
-DataVals == {"some", "full"}
-Data(r, v) == [r EXCEPT !.lp = "L", !.fs = 2, !.bt = IF v = "some" THEN 1 ELSE 2]
+\* boundary file sizes {0, 1, n} x bytes {0, part, all}:  some = part of n, full = n of n,
+\* zero = 0 of n, empty = 0 of 0 (an empty file: all of its bytes have arrived), one = 1 of 1, onez = 0 of 1
+DataVals == {"some", "full", "zero", "empty", "one", "onez"}
+DataFs(v) == CASE v \in {"some", "full", "zero"} -> 2 [] v = "empty" -> 0 [] OTHER -> 1
+DataBt(v) == CASE v = "some" -> 1 [] v = "full" -> 2 [] v = "one" -> 1 [] OTHER -> 0
+Data(r, v) == [r EXCEPT !.lp = "L", !.fs = DataFs(v), !.bt = DataBt(v)]
 
 \* Life stories through which Init (and the replay driver, with the real state methods)
 \* bring a transfer into a start state.
@@ -117,11 +125,14 @@ Recipe(n) ==
     [] n = "paused_xfer"  -> <<"queue", "initialize", "set_some", "start", "pause">>
     [] n = "requeued"     -> <<"queue", "fail", "queue">>
     [] n = "init_rq"      -> <<"queue_r", "initialize">>
+    [] n = "xfer_zero"    -> <<"queue", "initialize", "set_zero", "start">>
+    [] n = "xfer_empty"   -> <<"queue", "initialize", "set_empty", "start">>
+    [] n = "xfer_one"     -> <<"queue", "initialize", "set_onez", "start", "set_one">>
+    [] n = "xfer_onez"    -> <<"queue", "initialize", "set_onez", "start">>
 
 StepOf(r, o) ==
   IF r.st = "BAD" THEN r
-  ELSE IF o = "set_some" THEN Data(r, "some")
-  ELSE IF o = "set_full" THEN Data(r, "full")
+  ELSE IF o \in {"set_" \o v : v \in DataVals} THEN Data(r, CHOOSE v \in DataVals : o = "set_" \o v)
   ELSE IF CanDo(r, o) THEN Effect(r, o)
   ELSE [r EXCEPT !.st = "BAD"]
 
@@ -212,17 +223,26 @@ EligDown(m) == {k \in Downs(m) : /\ ~m[k].rq
 BusyUsers(m) == {k[1] : k \in {x \in Ups(m) : m[x].st \in InProgress}}
 EligUp(m) == {k \in Ups(m) : m[k].st = "QUEUED" /\ k[1] \notin BusyUsers(m)}
 OpenUsers(m, b) == {k[1] : k \in EligUp(m) \cap b}
-PickSets(m, b) ==
+\* h = downloads whose queue request could not be delivered in this life.  Whether and when such a
+\* download is tried again within the life (a back-off would be legitimate) is not C17's subject:
+\* those picks are left open too.  After a restart h is empty: a loaded download is attempted like
+\* a fresh one, whatever happened to it in the previous life.
+PickSets(m, b, h) ==
   LET strict == {k \in EligUp(m) : k[1] \notin OpenUsers(m, b)}
       open == {k \in EligUp(m) : k[1] \in OpenUsers(m, b)}
-  IN {EligDown(m) \cup U \cup L :
+  IN {(EligDown(m) \ h) \cup D \cup U \cup L :
+        D \in SUBSET (EligDown(m) \cap h),
         U \in {X \in SUBSET strict : \A u \in {k[1] : k \in strict} : Cardinality({k \in X : k[1] = u}) = 1},
         L \in SUBSET open}
-\* a picked download is queued remotely (the peer acknowledged), a picked upload is initialised
-CycleEffect(m, P) ==
+\* a picked download is queued remotely when the request is delivered (the peer acknowledges);
+\* when it is not (fq = users whose queue requests fail) _queue_remotely counts the attempt and
+\* calls state.queue(): INCOMPLETE / FAILED become QUEUED, and the cycle this triggers tries - and
+\* fails - once more.  A picked upload is initialised.
+CycleEffect(m, P, fq) ==
   [k \in DOMAIN m |-> IF k \notin P THEN m[k]
-                      ELSE IF IsDown(k) THEN [m[k] EXCEPT !.rq = TRUE]
-                      ELSE [m[k] EXCEPT !.st = "INITIALIZING"]]
+                      ELSE IF ~IsDown(k) THEN [m[k] EXCEPT !.st = "INITIALIZING"]
+                      ELSE IF k[1] \notin fq THEN [m[k] EXCEPT !.rq = TRUE]
+                      ELSE IF CanDo(m[k], "queue") THEN Effect(m[k], "queue") ELSE m[k]]
 
 ----------------------------------------------------------------------------
 VARIABLES
@@ -235,15 +255,19 @@ VARIABLES
   wired,     \* keys whose transfer has the manager as state listener
   picked,    \* what the last cycle picked up
   busy,      \* keys with an attempt (task) in flight that only a cancellation ends
+  failq,     \* environment: users to whom a queue request cannot be delivered at the moment
+  held,      \* downloads whose queue request failed in this life (and was not delivered since)
   act,       \* kind of the last step: "Init" | "Other" | "Write" | "OldWrite" | "Restart" | "Cycle"
   nops, lives
 
-vars == <<mem, db, proc, lastW, started, cycleReq, wired, picked, busy, act, nops, lives>>
+vars == <<mem, db, proc, lastW, started, cycleReq, wired, picked, busy, failq, held, act, nops, lives>>
 
 Init ==
   /\ mem \in UNION {Mems(S) : S \in {X \in SUBSET Keys : Cardinality(X) <= MaxInit}}
   /\ db = EmptyDb /\ proc = "running" /\ lastW = Empty
   /\ started = FALSE /\ cycleReq = (DOMAIN mem # {}) /\ wired = DOMAIN mem /\ picked = {} /\ busy = {}
+  /\ failq \in (IF PeerFaults /\ Downs(mem) # {} THEN {{}, {k[1] : k \in Downs(mem)}} ELSE {{}})
+  /\ held = {}
   /\ act = "Init" /\ nops = 0 /\ lives = 0
 
 Running == proc = "running" /\ nops < MaxOps
@@ -259,7 +283,7 @@ AddTo(k, m2) ==
   /\ \A x \in DOMAIN mem : m2[x] = mem[x]
   /\ mem' = m2 /\ wired' = wired \cup {k} /\ cycleReq' = TRUE
   /\ act' = "Other" /\ Tick
-  /\ UNCHANGED <<db, proc, lastW, started, picked, busy, lives>>
+  /\ UNCHANGED <<db, proc, lastW, started, picked, busy, failq, held, lives>>
 Add(k) == Cardinality(DOMAIN mem) < MaxPresent /\ AddTo(k, mem @@ (k :> Virgin(k)))
 
 \* a state method (state.py); the manager is told when it is a listener (manager.py:1146-1149)
@@ -271,7 +295,7 @@ MutateTo(k, o, r2) ==
   /\ cycleReq' = (cycleReq \/ k \in wired)
   /\ busy' = IF Base(o) \in {"abort", "pause"} THEN busy \ {k} ELSE busy    \* these cancel the tasks
   /\ act' = "Other" /\ Tick
-  /\ UNCHANGED <<db, proc, lastW, started, wired, picked, lives>>
+  /\ UNCHANGED <<db, proc, lastW, started, wired, picked, failq, held, lives>>
 Mutate(k, o) == k \in DOMAIN mem /\ MutateTo(k, o, Effect(mem[k], o))
 
 SetDataTo(k, r2) ==
@@ -280,25 +304,26 @@ SetDataTo(k, r2) ==
   /\ r2 # mem[k]
   /\ mem' = [mem EXCEPT ![k] = r2]
   /\ act' = "Other" /\ Tick
-  /\ UNCHANGED <<db, proc, lastW, started, cycleReq, wired, picked, busy, lives>>
+  /\ UNCHANGED <<db, proc, lastW, started, cycleReq, wired, picked, busy, failq, held, lives>>
 SetData(k, v) == k \in DOMAIN mem /\ mem[k].st \in InProgress /\ SetDataTo(k, Data(mem[k], v))
 
 \* manager.remove (manager.py:346-369)
 Remove(k) ==
   /\ Running /\ Free /\ k \in DOMAIN mem
   /\ mem' = Restrict(mem, DOMAIN mem \ {k})
-  /\ wired' = wired \ {k} /\ cycleReq' = TRUE /\ busy' = busy \ {k}
+  /\ wired' = wired \ {k} /\ cycleReq' = TRUE /\ busy' = busy \ {k} /\ held' = held \ {k}
   /\ act' = "Other" /\ Tick
-  /\ UNCHANGED <<db, proc, lastW, started, picked, lives>>
+  /\ UNCHANGED <<db, proc, lastW, started, picked, failq, lives>>
 
 \* write_cache / store_data without stopping (a periodic write)
 Write ==
   /\ Running /\ Free
   /\ db' \in WriteRes(db, mem) /\ lastW' = mem
   /\ act' = "Write" /\ Tick
-  /\ UNCHANGED <<mem, proc, started, cycleReq, wired, picked, busy, lives>>
+  /\ UNCHANGED <<mem, proc, started, cycleReq, wired, picked, busy, failq, held, lives>>
 
 Dies == proc' = "dead" /\ mem' = Empty /\ started' = FALSE /\ cycleReq' = FALSE /\ wired' = {} /\ busy' = {}
+        /\ held' = {} /\ UNCHANGED failq
 
 \* client.stop(): tasks cancelled, then store_data(); m = the members at that moment
 StopWriteOf(m) ==
@@ -328,14 +353,14 @@ RestartTo(m2) ==
   /\ wired' = DOMAIN m2 /\ cycleReq' = (DOMAIN m2 # {})
   /\ picked' = {} /\ lives' = lives + 1
   /\ act' = "Restart" /\ Tick
-  /\ UNCHANGED <<db, lastW, started, busy>>
+  /\ UNCHANGED <<db, lastW, started, busy, failq, held>>
 Restart == proc = "dead" /\ \E m2 \in LoadRes(db) : RestartTo(m2)
 
 \* manager.start()
 StartMgr ==
   /\ Running /\ ~started
   /\ started' = TRUE /\ act' = "Other" /\ Tick
-  /\ UNCHANGED <<mem, db, proc, lastW, cycleReq, wired, picked, busy, lives>>
+  /\ UNCHANGED <<mem, db, proc, lastW, cycleReq, wired, picked, busy, failq, held, lives>>
 
 \* as in client.start(): right after load_data() (or first thing in a fresh client); a life in
 \* which start() is not called then stays without scheduling (keeps the model small)
@@ -347,19 +372,35 @@ CycleTo(P, m2) ==
   /\ DOMAIN m2 = DOMAIN mem
   /\ mem' = m2 /\ picked' = P /\ cycleReq' = FALSE
   /\ busy' = busy \cup {k \in P : ~IsDown(k)}      \* the peer does not answer: the attempt stays in flight
+  /\ held' = (held \ {k \in P : IsDown(k) /\ k[1] \notin failq}) \cup {k \in P : IsDown(k) /\ k[1] \in failq}
   /\ act' = "Cycle" /\ Tick
-  /\ UNCHANGED <<db, proc, lastW, started, wired, lives>>
+  /\ UNCHANGED <<db, proc, lastW, started, wired, failq, lives>>
 \* the code (manage_transfers) does not start a second attempt while one is in flight
-Cycle == cycleReq /\ \E P \in PickSets(mem, busy) :
-            /\ P \cap busy = {}
+\* and tries every eligible download in every cycle
+Cycle == cycleReq /\ \E P \in PickSets(mem, busy, held) :
+            /\ P \cap busy = {} /\ EligDown(mem) \subseteq P
             /\ \A k1, k2 \in P : (~IsDown(k1) /\ ~IsDown(k2) /\ k1[1] = k2[1]) => k1 = k2
-            /\ CycleTo(P, CycleEffect(mem, P))
+            /\ CycleTo(P, CycleEffect(mem, P, failq))
+
+\* environment: a peer becomes (un)reachable for queue requests
+PeerDown(u) ==
+  /\ nops < MaxOps /\ Free /\ u \notin failq
+  /\ failq' = failq \cup {u} /\ act' = "Other" /\ Tick
+  /\ UNCHANGED <<mem, db, proc, lastW, started, cycleReq, wired, picked, busy, held, lives>>
+PeerUp(u) ==
+  /\ nops < MaxOps /\ Free /\ u \in failq
+  /\ failq' = failq \ {u} /\ act' = "Other" /\ Tick
+  /\ UNCHANGED <<mem, db, proc, lastW, started, cycleReq, wired, picked, busy, held, lives>>
+
+EnvDown(u) == PeerToggles /\ PeerDown(u)
+EnvUp(u) == PeerToggles /\ PeerUp(u)
 
 Next ==
   \/ \E k \in Keys : Add(k) \/ Remove(k)
   \/ \E k \in Keys, o \in MutOps \cap MOps : Mutate(k, o)
-  \/ \E k \in Keys, v \in DataVals : SetData(k, v)
+  \/ \E k \in Keys, v \in SetVals \cap DataVals : SetData(k, v)
   \/ Write \/ StopWrite \/ Crash \/ Restart \/ Cycle \/ StartEarly
+  \/ \E u \in Users : EnvDown(u) \/ EnvUp(u)
   \/ \E fmt \in {"current", "legacy"} : OldVersionWrite(fmt)
 
 Spec == Init /\ [][Next]_vars
@@ -372,7 +413,7 @@ TypeOK ==
   /\ \A k \in DOMAIN mem : mem[k].k = k /\ mem[k].st \in TS!States
   /\ \A r \in RecsOf(db) : r.st \in TS!States
   /\ proc = "dead" => mem = Empty
-  /\ busy \subseteq Ups(mem)
+  /\ busy \subseteq Ups(mem) /\ held \subseteq Downs(mem)
 
 \* the fields the statement says come back unchanged
 SameTransfer(a, b) ==
@@ -421,7 +462,7 @@ RepairIsLegal == [][RepairIsLegalA]_vars
 \* requested, and a cycle picks exactly what it would pick among fresh transfers in those states
 LoadedLikeFreshA ==
   /\ act' = "Restart" => wired' = DOMAIN mem' /\ (DOMAIN mem' # {} => cycleReq')
-  /\ act' = "Cycle" => picked' \in PickSets(mem, busy)
+  /\ act' = "Cycle" => picked' \in PickSets(mem, busy, held)
 LoadedLikeFresh == [][LoadedLikeFreshA]_vars
 WiredAll == proc = "running" => wired = DOMAIN mem
 =============================================================================
